@@ -76,6 +76,21 @@ def grid_cases(ctx, n):
             v = mkvar("g", "state", "log", npts, nodes=nodes)
             xs = sorted({nodes[0] + (nodes[-1] - nodes[0]) * F(rng.randrange(0, 65), 64) for _ in range(8)})
             cases.append({"fn": "gridcoord", "kind": "log grid (tolerance)", "grid": v, "xs": [q(x) for x in xs], "tol": [1, 512]})
+    # long exact linear grids (129 - 1025 nodes): values a thousandth of a step to either side of nodes with a high index --
+    # coordinates must still increase strictly and equal (x - start) / step exactly
+    r2 = ctx.rng("long-grids")
+    for _ in range(max(20, n // 25)):
+        npts = r2.choice([129, 257, 513, 1025])
+        step = r2.choice([F(1, 2), F(1), F(2)])
+        start = F(r2.randint(-8, 8))
+        v = mkvar("g", "state", "lin", npts, start, start + step * (npts - 1))
+        xs = set()
+        for _k in range(3):
+            i = r2.randrange(npts // 2, npts)
+            node = start + step * i
+            xs |= {node - step / 1024, node, node + step / 1024}
+        cases.append({"fn": "gridcoord", "kind": "long linear grid, values next to high-index nodes", "grid": v, "xs": [q(x) for x in sorted(xs)],
+                      "tol": EXACT})
     return cases
 
 
